@@ -63,7 +63,7 @@ static void check_case(vg::Src& s, vh::Ctx& c)
     FlowCase fc = gen_flow_case(s, o);
     // single-direction final state
     std::vector<OpSpec> ops;
-    size_t cls = s.weighted({ 90, 50, 80, 36 });
+    size_t cls = s.weighted({ 80, 40, 70, 30, 36 });
     bool rerouted = false;
     switch (cls)
     {
@@ -77,8 +77,13 @@ static void check_case(vg::Src& s, vh::Ctx& c)
             ops = { vg::op_single(0), vg::op_mst(s.coin() ? va::MST_BORUVKA : va::MST_KRUSKAL, s.coin() ? va::ROUTE_BASIC : va::ROUTE_CARVE) };
             rerouted = true;
             break;
-        default:
+        case 3:
             ops = { vg::op_multi(1.0), vg::op_snap("m", true, false), vg::op_single(0) };
+            break;
+        default:
+            // single-direction snapshots are flow graphs too: basins() is delineated on them as well
+            ops = { vg::op_single(0), vg::op_snap("before", true, false), vg::op_mst(s.coin() ? va::MST_BORUVKA : va::MST_KRUSKAL, s.coin() ? va::ROUTE_BASIC : va::ROUTE_CARVE), vg::op_snap("after", true, s.coin()) };
+            rerouted = true;
     }
     size_t rounds = s.range(1, 3);
     c.desc = fc.describe() + " ops=" + vg::describe(ops) + " rounds=" + std::to_string(rounds);
@@ -94,6 +99,12 @@ static void check_case(vg::Src& s, vh::Ctx& c)
         check_basins(c, fc, *b.graph, "round#" + std::to_string(r + 1));
         if (s.coin())
             check_basins(c, fc, *b.graph, "round#" + std::to_string(r + 1) + "(repeated)");
+        for (auto& key : b.graph->graph_snapshot_keys())
+        {
+            va::IGraph& sg = b.graph->graph_snapshot(key);
+            if (sg.impl_single_flow())
+                check_basins(c, fc, sg, "round#" + std::to_string(r + 1) + " snapshot '" + key + "'");
+        }
         nbasins = std::max(nbasins, b.graph->outlets().size());
     }
     c.nontrivial = nbasins >= 2 && (!fc.mask.empty() || rerouted);
